@@ -42,6 +42,7 @@ type Oblig struct {
 	ReplayOut        string
 	ReplayTemplate   string
 	ReplayPkgDir     string
+	ClauseProps      []string
 }
 
 // Gen generates verification conditions for one function (plus inlined callees).
@@ -594,16 +595,17 @@ func pointerShaped(t types.Type) bool {
 // Heap state (lazy, persistent)
 
 type HeapState struct {
-	g      *Gen
-	parent *HeapState
-	over   map[string]string
-	preds  []*HeapState
-	conds  []string
-	epoch  string
-	hv     *ModSet
-	cache  map[string]string
-	frozen bool
-	symEnv *Env
+	g          *Gen
+	parent     *HeapState
+	over       map[string]string
+	preds      []*HeapState
+	conds      []string
+	epoch      string
+	hv         *ModSet
+	cache      map[string]string
+	frozen     bool
+	symEnv     *Env
+	privParent *HeapState
 }
 
 func (g *Gen) newBaseHeap(tag string) *HeapState {
@@ -675,6 +677,8 @@ func (h *HeapState) get(key string) string {
 		}
 	case h.parent != nil:
 		v = h.parent.get(key)
+	case h.privParent != nil && strings.HasPrefix(key, "L|"):
+		v = h.privParent.get(key)
 	default:
 		v = h.g.declConst(sanitize(key)+"@"+h.epoch, h.g.heapMapSort(key))
 	}
@@ -709,6 +713,14 @@ func (h *HeapState) havoc(ms *ModSet, why string) *HeapState {
 	var n *HeapState
 	if ms.All {
 		n = g.newBaseHeap(why)
+		// private cells of the running function are out of the callee's reach: only those the (loop) frame names are lost
+		n.privParent = h
+		n.hv = &ModSet{Maps: map[string]bool{}}
+		for k := range ms.Maps {
+			if strings.HasPrefix(k, "L|") {
+				n.hv.Maps[k] = true
+			}
+		}
 	} else {
 		n = &HeapState{g: g, parent: h, hv: ms, epoch: g.freshName("hv_" + why), cache: map[string]string{}}
 	}
